@@ -102,6 +102,7 @@ class BaseClient:
         self.namespace_handlers = {}
         self.callbacks = {}
         self._binary_packet = None
+        self._transport_ended = False
         self._connect_event = None
         self._reconnect_task = None
         self._reconnect_abort = None
